@@ -6,6 +6,7 @@ import CnvVerif.Model.Interval
 import CnvVerif.Model.IntervalSpec
 import CnvVerif.Lemmas.Interval
 import CnvVerif.Lemmas.Interval2
+import CnvVerif.Lemmas.IntervalTable
 namespace CnvVerif.C06
 open CnvVerif
 
@@ -77,6 +78,27 @@ theorem resize_spec (bp : Int) (sizes : String → Option Int) (t : Table) (q : 
 theorem clip_bounds (hi : Int) (hh : 0 ≤ hi) (x : Int) :
     0 ≤ clipInt 0 (some hi) x ∧ clipInt 0 (some hi) x ≤ hi ∧
     (0 ≤ x → x ≤ hi → clipInt 0 (some hi) x = x) := clipInt_bounds hi hh x
+
+/-! ### table level: any number of chromosomes, any row order
+
+    The pandas-style wrappers (`sort_values`, `groupby(sort=False)`, the stable re-sort of
+    chromosomes, `by_shared_chroms`, `by_ranges`) preserve the per-chromosome statements. -/
+
+/-- merge never loses or invents a base on any chromosome, for every `bp ≥ 0` -/
+theorem merge_cov_table (bp : Int) (hbp : 0 ≤ bp) (t : Table) (c : String) (p : Int) :
+    cov (rowsOf (mergeTable bp t) c) p ↔ cov (rowsOf t c) p := mergeTable_cov bp hbp t c p
+
+/-- merge (bp = 0) leaves, on every chromosome, the canonical list: sorted, positive-length,
+    disjoint, non-abutting rows (unique by `canonical_unique`) -/
+theorem merge_canonical_table (t : Table) (hp : ∀ r ∈ t, r.s < r.e) (c : String) :
+    Canon (rowsOf (mergeTable 0 t) c) := mergeTable_canon t hp c
+
+/-- a.subtract(b) covers, on every chromosome, exactly the bases of `a` that are not in `b` — also
+    when b's intervals overlap or nest, and when a chromosome is missing from either table -/
+theorem subtract_cov_table (a b : Table) (hb : ∀ r ∈ b, 0 ≤ r.s ∧ r.s < r.e)
+    (ha : ∀ r ∈ a, 0 ≤ r.s ∧ r.s ≤ r.e) (c : String) (p : Int) :
+    cov (rowsOf (subtractTable a b) c) p ↔ (cov (rowsOf a c) p ∧ ¬ cov (rowsOf b c) p) :=
+  subtractTable_cov a b hb ha c p
 
 /-! non-vacuity: concrete inputs meeting the hypotheses, evaluated by the kernel -/
 example : mergeChrom 0 [⟨"chr1", 0, 5, "a"⟩, ⟨"chr1", 3, 8, "b"⟩, ⟨"chr1", 8, 9, "c"⟩, ⟨"chr1", 12, 13, "d"⟩]
